@@ -61,6 +61,7 @@ THEOREMS = [
     "Mesa.Legacy.C18_legacy_place_outside_deletable",
     "Mesa.Legacy.C08_place_negative_coordinates_break_agreement",
     "Mesa.Legacy.C18_legacy_rejected_calls_deletable_any_future",
+    "Mesa.Legacy.C18_legacy_new_reads_same_after_deletion",
     "Mesa.Legacy.C18_legacy_net_step_reject_unchanged",
     "Mesa.Legacy.C18_legacy_net_rejects_exactly",
     "Mesa.Legacy.C18_legacy_net_rejected_calls_deletable",
